@@ -110,6 +110,8 @@ type c09Func struct {
 	// unguarded-access analysis
 	accessOut bool            // accesses a guarded field on a path where (locally) the lock is not held
 	callsOut  map[string]bool // callees called at a point where (locally) the lock is not held
+	writeNoW  bool            // writes a guarded map on a path where (locally) the WRITE lock is not held
+	callsNoW  map[string]bool // callees called at a point where (locally) the write lock is not held
 	nCallers  int
 }
 
@@ -213,7 +215,7 @@ func genC09(repo string) (string, string, error) {
 			if fd.Recv != nil && len(fd.Recv.List) == 1 {
 				name = c09RecvName(fd.Recv.List[0].Type) + "." + name
 			}
-			fn := &c09Func{name: name, body: fd.Body, decl: fd, callsOut: map[string]bool{}}
+			fn := &c09Func{name: name, body: fd.Body, decl: fd, callsOut: map[string]bool{}, callsNoW: map[string]bool{}}
 			if obj := g.info.Defs[fd.Name]; obj != nil {
 				g.funcs[obj] = fn
 			}
@@ -222,7 +224,7 @@ func genC09(repo string) (string, string, error) {
 			ast.Inspect(fd.Body, func(x ast.Node) bool {
 				if fl, ok := x.(*ast.FuncLit); ok {
 					n++
-					lf := &c09Func{name: fmt.Sprintf("%s$lit%d", name, n), body: fl.Body, callsOut: map[string]bool{}}
+					lf := &c09Func{name: fmt.Sprintf("%s$lit%d", name, n), body: fl.Body, callsOut: map[string]bool{}, callsNoW: map[string]bool{}}
 					g.lits[fl] = lf
 					g.all = append(g.all, lf)
 				}
@@ -246,7 +248,7 @@ func genC09(repo string) (string, string, error) {
 					ast.Inspect(v, func(x ast.Node) bool {
 						if fl, ok := x.(*ast.FuncLit); ok {
 							n++
-							lf := &c09Func{name: fmt.Sprintf("%s$lit%d", base, n), body: fl.Body, separate: true, callsOut: map[string]bool{}}
+							lf := &c09Func{name: fmt.Sprintf("%s$lit%d", base, n), body: fl.Body, separate: true, callsOut: map[string]bool{}, callsNoW: map[string]bool{}}
 							g.lits[fl] = lf
 							g.all = append(g.all, lf)
 						}
@@ -292,6 +294,31 @@ func genC09(repo string) (string, string, error) {
 		unguarded = append(unguarded, n)
 	}
 	sort.Strings(unguarded)
+	reportedW := map[string]bool{}
+	var markW func(fn *c09Func)
+	markW = func(fn *c09Func) {
+		if reportedW[fn.name] {
+			return
+		}
+		reportedW[fn.name] = true
+		for callee := range fn.callsNoW {
+			for _, c := range byName[callee] {
+				if c.writeNoW {
+					markW(c)
+				}
+			}
+		}
+	}
+	for _, fn := range g.all {
+		if fn.writeNoW && ((fn.decl != nil && fn.nCallers == 0) || (fn.decl == nil && fn.separate)) {
+			markW(fn)
+		}
+	}
+	var badWrites []string
+	for n := range reportedW {
+		badWrites = append(badWrites, n)
+	}
+	sort.Strings(badWrites)
 
 	// ---- output
 	type entry struct {
@@ -352,12 +379,16 @@ func genC09(repo string) (string, string, error) {
 	sb.WriteString("(* functions that operate the lock themselves (not only through callees) *)\n")
 	sb.WriteString("Definition direct_lockers : list string := " + c09CoqStrings(direct) + ".\n\n")
 	sb.WriteString("(* functions reading or writing a map field of " + c09Struct + " on a path where the lock is not held *)\n")
-	sb.WriteString("Definition unguarded_map_access : list string := " + c09CoqStrings(unguarded) + ".\n")
-	if len(g.recursive) > 0 {
-		var rs []string
-		for n := range g.recursive {
-			rs = append(rs, n)
+	sb.WriteString("Definition unguarded_map_access : list string := " + c09CoqStrings(unguarded) + ".\n\n")
+	sb.WriteString("(* functions assigning to / deleting from a map field of " + c09Struct + " on a path where the WRITE lock is not held *)\n")
+	sb.WriteString("Definition map_write_without_wlock : list string := " + c09CoqStrings(badWrites) + ".\n")
+	var rs []string
+	for _, fn := range g.all {
+		if g.recursive[fn.name] && len(fn.traces) > 0 && !(len(fn.traces) == 1 && fn.traces[0] == "") {
+			rs = append(rs, fn.name)
 		}
+	}
+	if len(rs) > 0 {
 		sort.Strings(rs)
 		sb.WriteString("\n(* recursive call cycles cut at: " + strings.Join(rs, ", ") + " *)\n")
 	}
@@ -428,6 +459,38 @@ func c09Held(ops string) bool {
 		}
 	}
 	return d > 0
+}
+
+// c09WriteHeld reports whether, after ops, the innermost acquisition still held is a write lock.
+func c09WriteHeld(ops string) bool {
+	var st []rune
+	for _, c := range ops {
+		switch c {
+		case 'R', 'L':
+			st = append(st, c)
+		case 'r', 'l':
+			if len(st) > 0 {
+				st = st[:len(st)-1]
+			}
+		}
+	}
+	return len(st) > 0 && st[len(st)-1] == 'L'
+}
+
+// guardedSel: e is <expr of type (*)MultiEpoch>.<map field>
+func (g *c09Gen) guardedSel(e ast.Expr) bool {
+	sel, ok := c09Unparen(e).(*ast.SelectorExpr)
+	return ok && g.guarded[sel.Sel.Name] && g.isMulti(sel.X)
+}
+
+// noteWrite records a write to a guarded map made in the states `at`.
+func (g *c09Gen) noteWrite(at c09Set) {
+	fn := g.cur[len(g.cur)-1]
+	for _, s := range at {
+		if !c09WriteHeld(s.ops) {
+			fn.writeNoW = true
+		}
+	}
 }
 
 // ---------------------------------------------------------------- traces of a function
@@ -538,6 +601,11 @@ func (g *c09Gen) exec(st ast.Stmt, in c09Set, label string) c09Out {
 		}
 		for _, e := range s.Lhs {
 			cur = g.eval(e, cur)
+			if ix, ok := c09Unparen(e).(*ast.IndexExpr); ok && g.guardedSel(ix.X) {
+				g.noteWrite(cur)
+			} else if g.guardedSel(e) {
+				g.noteWrite(cur)
+			}
 		}
 		out.normal = cur
 	case *ast.DeclStmt:
@@ -782,6 +850,11 @@ func (g *c09Gen) eval(e ast.Expr, in c09Set) c09Set {
 		for _, a := range x.Args {
 			cur = g.eval(a, cur)
 		}
+		if id, ok := c09Unparen(x.Fun).(*ast.Ident); ok && (id.Name == "delete" || id.Name == "clear") && len(x.Args) > 0 && g.guardedSel(x.Args[0]) {
+			if _, isBuiltin := g.info.Uses[id].(*types.Builtin); isBuiltin {
+				g.noteWrite(cur)
+			}
+		}
 		alts, callee := g.callTraces(x)
 		g.noteCall(callee, cur)
 		if len(alts) == 1 && alts[0] == "" {
@@ -888,6 +961,15 @@ func (g *c09Gen) noteCall(callee *c09Func, at c09Set) {
 			caller.callsOut[callee.name] = true
 			if callee.accessOut {
 				caller.accessOut = true
+			}
+			break
+		}
+	}
+	for _, s := range at {
+		if !c09WriteHeld(s.ops) {
+			caller.callsNoW[callee.name] = true
+			if callee.writeNoW {
+				caller.writeNoW = true
 			}
 			break
 		}
